@@ -1,0 +1,21 @@
+//! Verification hooks, compiled only with the off-by-default `verif` feature.
+//!
+//! A *failpoint* is a named place in the library at which an externally installed handler is
+//!   called. With no handler installed a point costs one atomic load.
+
+use std::sync::OnceLock;
+
+static HANDLER: OnceLock<fn(&'static str)> = OnceLock::new();
+
+/// Installs the process-wide failpoint handler. Only the first call has an effect.
+pub fn set_failpoint_handler(handler: fn(&'static str)) {
+    HANDLER.set(handler).ok();
+}
+
+/// Calls the installed failpoint handler, if any, with the name of the point.
+#[inline]
+pub fn point(name: &'static str) {
+    if let Some(handler) = HANDLER.get() {
+        handler(name)
+    }
+}
